@@ -88,13 +88,19 @@ class Registry:
             return True
         return any(self.is_subclass(b, base) for b in self.bases.get(cls, []))
 
-    def lookup_method(self, cls, name):
+    def lookup_method(self, cls, name, args=None):
+        """The contract of method `name` for class `cls` (or a base).  Several contracts may exist
+        for one method (scalar and sequence forms of an argument): with the actual arguments given
+        the first whose parameter specs fit their shapes is taken."""
         seen = [cls] + self._all_bases(cls)
+        first = None
         for k in seen:
             for c in self.contracts.values():
                 if c.cls == k and c.name == name:
-                    return c
-        return None
+                    if args is None or _args_fit(c, args):
+                        return c
+                    first = first or c
+        return first
 
     def _all_bases(self, cls):
         out = []
@@ -333,6 +339,22 @@ def make_symbolic(spec, name, reg, st):
         if tag == 'dict':       # ('dict', {key: spec}): a dict / table with these string keys
             return {k: make_symbolic(t, f'{name}[{k!r}]', reg, st) for k, t in spec[1].items()}
     raise Unsupported(f'type spec {spec!r}')
+
+
+def _args_fit(c, args):
+    """Shape compatibility of actual arguments (after self) with the contract's parameter specs:
+    a scalar spec needs a scalar, a sequence / array spec needs a sequence or array."""
+    from .values import is_num
+    names = [n for n in c.params if n not in ('self', 'cls')]
+    for n, a in zip(names, args):
+        spec = c.params[n]
+        scalar_spec = spec in ('int', 'nat', 'pos', 'real', 'posreal', 'bool', 'str')
+        seq_spec = isinstance(spec, tuple) and spec and spec[0] in ('seq', 'arr')
+        if scalar_spec and isinstance(a, (SSeq, SArr, list, tuple)):
+            return False
+        if seq_spec and (is_num(a) or isinstance(a, (int, float, bool))):
+            return False
+    return True
 
 
 def _int(i):
